@@ -9,7 +9,7 @@ CONSTANTS
   MaxPend = 2
   NoSpace <- None
   Dev <- DevExists
-  Budget <- Bq
+  Budget <- Bdev
 SYMMETRY Sym
 INVARIANT TypeOK
 INVARIANT IdxFollowsStore
